@@ -105,10 +105,11 @@ func checkC15(c *Ctx) {
 		return
 	}
 	m := b.m
-	const G1, P1, O1, D1, A1 = "C15.G1", "C15.P1", "C15.O1", "C15.D1", "C15.A1"
+	const G1, P1, O1, O2, D1, A1 = "C15.G1", "C15.P1", "C15.O1", "C15.O2", "C15.D1", "C15.A1"
 	c.Rule(G1, "limits dominate appends and bookkeeping creation", 3)
 	c.Rule(P1, "shedding cannot fail: buffers are built with a logger", 1)
 	c.Rule(O1, "bookkeeping released with the topic", 2)
+	c.Rule(O2, "bookkeeping entered only together with a buffered message", 1)
 	c.Rule(D1, "no comparison mixes clock domains", 2)
 	c.Rule(A1, "GC guard cannot disable collection; lastGC set to the epoch read", 2)
 	fSource := m.Field(PkgTypes, "IncMessage", "Source")
@@ -167,15 +168,7 @@ func checkC15(c *Ctx) {
 				continue
 			}
 			// inner map of totals: totals[src][topic] = {}
-			inner := false
-			if lk, ok := strip(mu.Map).(*ssa.Lookup); ok && isLoadOfField(lk.X, b.fTotals) {
-				inner = true
-			} else if e, ok := strip(mu.Map).(*ssa.Extract); ok {
-				if lk, ok := e.Tuple.(*ssa.Lookup); ok && isLoadOfField(lk.X, b.fTotals) {
-					inner = true
-				}
-			}
-			if !inner {
+			if !b.isInnerTotals(mu.Map, 0) {
 				continue
 			}
 			nTop++
@@ -218,6 +211,36 @@ func checkC15(c *Ctx) {
 	}
 	if nTop == 0 {
 		c.Bad(G1, "msg", "topic bookkeeping", "-", "no per-sender topic bookkeeping found")
+	}
+	// O2: a topic entered into a sender's bookkeeping is paired with a buffered message of that sender
+	// (Send and sweep release bookkeeping only through the senders of the pendingMessages entry)
+	for _, fn := range b.fns {
+		for _, in := range instrsOf(fn) {
+			mu, ok := in.(*ssa.MapUpdate)
+			if !ok || !b.isInnerTotals(mu.Map, 0) {
+				continue
+			}
+			sec := b.la.sectionOf(mu, b.boxLock)
+			buffered := func(x ssa.Instruction) bool {
+				cl, ok := x.(*ssa.Call)
+				if !ok || staticCallee(&cl.Call) != b.add {
+					return false
+				}
+				if sec == nil || b.la.sectionOf(cl, b.boxLock) != sec {
+					return false
+				}
+				// receiver: the pendingMessages entry of the same topic (looked up or just created)
+				rs := b.sl.Slice(cl.Call.Args[0])
+				return sliceHas(rs, func(y ssa.Value) bool {
+					lk, ok := y.(*ssa.Lookup)
+					return ok && isLoadOfField(lk.X, b.fPending) && (sameValue(lk.Index, mu.Key) || b.sl.sameRoot(lk.Index, mu.Key))
+				})
+			}
+			path := pathToReturnAvoiding(mu, buffered, nil)
+			c.Check(path == nil, O2, FuncName(fn), "bookkeeping entry paired with a buffered message", m.Pos(mu.Pos()),
+				"every path from totals[src][topic] = {} to the return passes pendingMessages[topic].add(msg) in the same exclusive section",
+				"a topic is entered into the sender's bookkeeping on a path that buffers nothing for it ("+describePath(m, path)+"): Send and sweep release bookkeeping only for the senders of a pendingMessages entry, so this entry is never released and the sender's topic allowance shrinks for ever")
+		}
 	}
 
 	// ------------------------------------------------------------------ P1
@@ -426,4 +449,34 @@ func mapDeletesInner(fn *ssa.Function, f *types.Var) []ssa.CallInstruction {
 		}
 	}
 	return out
+}
+
+// isInnerTotals: v is a per-sender topic set, i.e. an element of totalInFlightTopicsBySender — looked up
+// from the field, or a fresh map that this function stores into it (any mix of the two through a φ).
+func (b *boxModel) isInnerTotals(v ssa.Value, depth int) bool {
+	if depth > 4 {
+		return false
+	}
+	v = strip(v)
+	switch x := v.(type) {
+	case *ssa.Lookup:
+		return isLoadOfField(x.X, b.fTotals)
+	case *ssa.Extract:
+		lk, ok := x.Tuple.(*ssa.Lookup)
+		return ok && x.Index == 0 && isLoadOfField(lk.X, b.fTotals)
+	case *ssa.Phi:
+		for _, e := range x.Edges {
+			if !b.isInnerTotals(e, depth+1) {
+				return false
+			}
+		}
+		return len(x.Edges) > 0
+	case *ssa.MakeMap:
+		for _, in := range instrsOf(x.Parent()) {
+			if mu, ok := in.(*ssa.MapUpdate); ok && isLoadOfField(mu.Map, b.fTotals) && strip(mu.Value) == ssa.Value(x) {
+				return true
+			}
+		}
+	}
+	return false
 }
